@@ -1,0 +1,31 @@
+//go:build verif
+
+package phylip
+
+// Property C19 (author C19b): the PHYLIP writer only reads the alignment it is given (see io/fasta for the scheme).
+
+//@ func WriteAlignment
+//@   props C19
+//@   requires al != nil && rowsok(al)
+//@   modifies nothing
+//@   loop 1
+//@     invariant 0 <= cursize && (line_length == PHYLIP_LINE || line_length == al.length) && (block_length == PHYLIP_BLOCK || block_length == line_length)
+//@     decreases al.length - cursize
+//@   loop 1 in (*seqbag).IterateChar
+//@     invariant stop == false && 0 <= cursize && line_length > 0 && block_length > 0
+//@     decreases nrows(al) - $i
+
+// the function literal: block_length > 0 is what makes its column loop advance (PHYLIP_BLOCK, or a line length that
+// is positive inside the writer's loop); both loop clauses are re-proved where the literal is inlined
+//@ func WriteAlignment$1
+//@   props C19
+//@   inline
+//@   requires 0 <= cursize && block_length > 0 && line_length > 0
+//@   ensures result == false
+//@   modifies gf(buflen; buf), gfa(bufdata; buf)
+//@   loop 1
+//@     invariant cursize <= i && 0 <= cursize && block_length > 0
+//@     decreases len(seq) - i
+//@   loop 2
+//@     invariant i <= j && 0 <= i && end <= len(seq) && block_length > 0 && cursize <= i
+//@     decreases end - j
